@@ -1,6 +1,6 @@
 (* C05 property theorems: parameter blocks, schedules, and the message / schema / alerts / password decoders. *)
 From Coq Require Import NArith ZArith List Bool.
-From PV Require Import Model.DataTypes Model.ParamBlocks Spec.C05p Proofs.C05pFacts Spec.C05s Proofs.C05sFacts Spec.C05r Proofs.C05rFacts Spec.C05u Proofs.C05uFacts.
+From PV Require Import Model.LazyData Proofs.C05lFacts Model.DataTypes Model.ParamBlocks Spec.C05p Proofs.C05pFacts Spec.C05s Proofs.C05sFacts Spec.C05r Proofs.C05rFacts Spec.C05u Proofs.C05uFacts.
 Import ListNotations.
 Open Scope N_scope.
 
@@ -42,6 +42,14 @@ Print Assumptions C05_regdata_body.
 Theorem C05_regdata : C05_regdata_statement.
 Proof. exact C05rFacts.C05_regdata. Qed.
 Print Assumptions C05_regdata.
+Theorem C05_regdata_history : C05_regdata_history_statement.
+Proof. exact C05lFacts.C05_regdata_history. Qed.
+Print Assumptions C05_regdata_history.
+(* D25: with the cache kept across assign_to(), one look at the frame before the device is known and the schema-less decoding
+   is what the device gets *)
+Theorem C05_context_pinned_refuted : forall (dec : option (list (N * N)) -> option nat) h,
+  ldata dec (lrun false dec [LAccess; LAssign h]) = dec None.
+Proof. intros dec h. exact (C05lFacts.C05_context_pinned_refuted dec h). Qed.
 Example C05_regdata_nonvacuous :
   forallb entry_ok [mkRE 1 10 (DBool true); mkRE 2 10 (DBool false); mkRE 4 5 (DInt 513); mkRE 5 10 (DBool true);
                     mkRE 14 12 (DRaw [65; 66]); mkRE 15 0 DNone; mkRE 16 1 (DInt (-3))] = true.
